@@ -126,6 +126,9 @@ pub trait IterHandle {
     fn rest_rev(&self) -> Vec<Item>;
     /// (clone.nth(j), clone.nth_back(j)) on two fresh clones: a spot check of the remaining window
     fn probe(&self, j: usize) -> (Item, Item);
+    /// what comes after the last remaining item, from both ends, on fresh clones:
+    /// (nth(len), nth_back(len), next() after nth(len-1), next_back() after nth_back(len-1)) - all must be None
+    fn probe_past_end(&self, len: usize) -> [Item; 4];
     fn debug_fmt(&self) -> String;
 }
 
@@ -319,6 +322,21 @@ where
         let a = self.it.clone().nth(j);
         let b = self.it.clone().nth_back(j);
         (self.id(a), self.id(b))
+    }
+    fn probe_past_end(&self, len: usize) -> [Item; 4] {
+        let a = self.it.clone().nth(len);
+        let b = self.it.clone().nth_back(len);
+        let mut c = self.it.clone();
+        if len > 0 {
+            c.nth(len - 1);
+        }
+        let c = c.next();
+        let mut d = self.it.clone();
+        if len > 0 {
+            d.nth_back(len - 1);
+        }
+        let d = d.next_back();
+        [self.id(a), self.id(b), self.id(c), self.id(d)]
     }
     fn debug_fmt(&self) -> String {
         format!("{:?}", self.it)
@@ -678,6 +696,10 @@ impl<'a> Exec<'a> {
                 }
                 positions.push(want_len / 2);
                 positions.push(want_len - 2);
+            }
+            let past = catch(|| s.real.probe_past_end(want_len)).map_err(|p| fail("panic_state", "no panic".into(), format!("panic while probing past the end of a clone: {}", p)))?;
+            if past.iter().any(|x| *x != Item::None) {
+                return Err(fail("state_forward", "None after the last remaining item, from both ends".into(), show_items(&past)));
             }
             for j in positions {
                 let (a, b) = catch(|| s.real.probe(j)).map_err(|p| fail("panic_state", "no panic".into(), format!("panic while probing a clone: {}", p)))?;
